@@ -21,6 +21,7 @@ CONSTANTS MaxLen,      \* bound on the content length in bytes
           Caps,        \* BufReader capacities explored
           MaxIdle,     \* polls with nothing new that the environment may interpose
           FreeAppend,  \* TRUE: writer appends at any time; FALSE: only at retry points (hook-realisable)
+          WithInterrupt, \* TRUE: the user may interrupt (ctrl-c clears `running`); the reader is then FollowFileExecutor's loop, which drops the next line and ends (C19)
           Dev          \* as-built deviations in force (subset of DevNames)
 
 DevNames == {"FollowUtf8Split"}
@@ -41,10 +42,11 @@ VARIABLES content, pre, head, cap,   \* chosen once per behaviour
           delivered,                \* lines handed to the query, in order
           pc,                       \* "fill" | "scan" | "retry" | "stopped" | "failed"
           idle,                     \* empty polls used
+          running,                  \* the AtomicBool shared with the ctrl-c handler (FollowFileExecutor checks it per delivered line)
           hist                      \* observation only: schedule + delivery counts, for replay
 
-vars == <<content, pre, head, cap, written, pos, buf, cur, line, delivered, pc, idle, hist>>
-view == <<content, pre, head, cap, written, pos, buf, cur, line, delivered, pc, idle>>
+vars == <<content, pre, head, cap, written, pos, buf, cur, line, delivered, pc, idle, running, hist>>
+view == <<content, pre, head, cap, written, pos, buf, cur, line, delivered, pc, idle, running>>
 
 -----------------------------------------------------------------------------
 \* Helpers
@@ -104,16 +106,25 @@ Init ==
   /\ delivered = <<>>
   /\ pc = "fill"
   /\ idle = 0
+  /\ running = TRUE
   /\ hist = <<>>
 
 \* --- writer ---------------------------------------------------------------
 WAppend(k) ==
   /\ k \in 1..(Len(content) - written)
   /\ FreeAppend \/ pc = "retry"
-  /\ pc # "stopped" /\ pc # "failed"
+  /\ pc # "stopped" /\ pc # "failed" /\ pc # "halted"
   /\ written' = written + k
   /\ hist' = IF FreeAppend THEN hist ELSE Append(hist, [e |-> "A", n |-> k])
-  /\ UNCHANGED <<content, pre, head, cap, pos, buf, cur, line, delivered, pc, idle>>
+  /\ UNCHANGED <<content, pre, head, cap, pos, buf, cur, line, delivered, pc, idle, running>>
+
+\* --- the user -------------------------------------------------------------
+\* ctrl-c while the reader waits for more input (possibly holding an unterminated piece of a line)
+Interrupt ==
+  /\ WithInterrupt /\ ~FreeAppend /\ pc = "retry" /\ running
+  /\ running' = FALSE
+  /\ hist' = Append(hist, [e |-> "I", n |-> Len(delivered)])
+  /\ UNCHANGED <<content, pre, head, cap, written, pos, buf, cur, line, delivered, pc, idle>>
 
 \* --- reader ---------------------------------------------------------------
 Fill ==
@@ -124,7 +135,7 @@ Fill ==
              /\ pos' = pos + n
      ELSE UNCHANGED <<buf, pos>>
   /\ pc' = "scan"
-  /\ UNCHANGED <<content, pre, head, cap, written, cur, line, delivered, idle, hist>>
+  /\ UNCHANGED <<content, pre, head, cap, written, cur, line, delivered, idle, running, hist>>
 
 \* the read_line call returns with `c` appended by this call
 EndCall(c, b) ==
@@ -135,9 +146,14 @@ EndCall(c, b) ==
        /\ UNCHANGED <<line, delivered>>
   ELSE LET l == line \o c
        IN IF l # <<>> /\ l[Len(l)] = LF
-          THEN /\ delivered' = Append(delivered, SubSeq(l, 1, Len(l) - 1))
-               /\ line' = <<>> /\ cur' = <<>> /\ buf' = b
-               /\ pc' = "fill"
+          THEN IF running
+               THEN /\ delivered' = Append(delivered, SubSeq(l, 1, Len(l) - 1))
+                    /\ line' = <<>> /\ cur' = <<>> /\ buf' = b
+                    /\ pc' = "fill"
+               ELSE \* the iterator hands the line out, the executor sees the cleared flag: the line is not consumed and the run ends
+                    /\ line' = <<>> /\ cur' = <<>> /\ buf' = b
+                    /\ pc' = "halted"
+                    /\ UNCHANGED delivered
           ELSE /\ line' = l /\ cur' = <<>> /\ buf' = b
                /\ pc' = "retry"
                /\ UNCHANGED delivered
@@ -151,7 +167,7 @@ Scan ==
              THEN EndCall(cur \o SubSeq(buf, 1, i), SubSeq(buf, i + 1, Len(buf)))
              ELSE /\ cur' = cur \o buf /\ buf' = <<>> /\ pc' = "fill"
                   /\ UNCHANGED <<line, delivered>>
-  /\ UNCHANGED <<content, pre, head, cap, written, pos, idle, hist>>
+  /\ UNCHANGED <<content, pre, head, cap, written, pos, idle, running, hist>>
 
 Retry ==
   /\ pc = "retry"
@@ -162,7 +178,7 @@ Retry ==
           IF hist # <<>> /\ hist[Len(hist)].e = "R"
           THEN idle < MaxIdle /\ idle' = idle + 1
           ELSE UNCHANGED idle
-  /\ UNCHANGED <<content, pre, head, cap, written, pos, buf, cur, line, delivered>>
+  /\ UNCHANGED <<content, pre, head, cap, written, pos, buf, cur, line, delivered, running>>
 
 \* the environment ends the observation (hook returns Stop) once everything is written
 Stop ==
@@ -171,10 +187,10 @@ Stop ==
   /\ written = Len(content)
   /\ pc' = "stopped"
   /\ hist' = Append(hist, [e |-> "S", n |-> Len(delivered)])
-  /\ UNCHANGED <<content, pre, head, cap, written, pos, buf, cur, line, delivered, idle>>
+  /\ UNCHANGED <<content, pre, head, cap, written, pos, buf, cur, line, delivered, idle, running>>
 
 Reader == Fill \/ Scan \/ Retry
-Next == (\E k \in 1..MaxLen : WAppend(k)) \/ Reader \/ Stop
+Next == (\E k \in 1..MaxLen : WAppend(k)) \/ Reader \/ Stop \/ Interrupt
 
 Spec == Init /\ [][Next]_vars
 FairSpec == Spec /\ WF_vars(Reader) /\ WF_vars(\E k \in 1..MaxLen : WAppend(k))
@@ -184,7 +200,7 @@ FairSpec == Spec /\ WF_vars(Reader) /\ WF_vars(\E k \in 1..MaxLen : WAppend(k))
 
 TypeOK ==
   /\ written \in pre..Len(content) /\ pos \in 0..written
-  /\ pc \in {"fill", "scan", "retry", "stopped", "failed"}
+  /\ pc \in {"fill", "scan", "retry", "stopped", "failed", "halted"}
 
 \* every delivered item is a complete line, exactly once, in order, byte for byte
 DeliveredPrefix == IsPrefix(delivered, CompleteLines(Visible))
@@ -192,7 +208,7 @@ DeliveredPrefix == IsPrefix(delivered, CompleteLines(Visible))
 \* the reader never invents, loses or reorders bytes: what it holds plus what it
 \* delivered is exactly the part of the file it has read
 Conservation ==
-  pc \notin {"failed"} =>
+  pc \notin {"failed", "halted"} =>          \* (a run halted by the user has read, and dropped, one more line)
     LET flat[i \in 0..Len(delivered)] ==
           IF i = 0 THEN <<>> ELSE flat[i - 1] \o delivered[i] \o <<LF>>
     IN flat[Len(delivered)] \o line \o cur \o buf = SubSeq(content, StartPos + 1, pos)
@@ -202,6 +218,9 @@ Quiescent == pc = "retry" /\ written = Len(content) /\ pos = written /\ buf = <<
 QuiescentComplete ==
   Quiescent => /\ delivered = CompleteLines(Visible)
                /\ line = TailAfterLastLF(Visible)
+
+\* C19 in follow mode: after the interrupt no further line is consumed (nothing more is delivered to the query)
+InterruptFreezesDelivery == [][~running => delivered' = delivered]_vars
 
 \* follow mode never gives up on its own
 NeverFails == pc # "failed"
